@@ -585,6 +585,7 @@ func copyStreamReaders[T any](sr *StreamReader[T], n int) []*StreamReader[T] {
 		closedNum:     0,
 	}
 	verifhook.EvP("copy.new", cpsr, verifhook.Itoa(n))
+	verifhook.Y("stream.copy.new")
 
 	// Initialize subStreamList with an empty element, which acts like a tail node.
 	// A nil element (used for dereference) represents that the child has been closed.
